@@ -12,7 +12,8 @@ Definition lift (s : bioseq) (r : res str) : res bioseq :=
 (* one edit through the code path = the edit on the residue string; the id is kept *)
 Lemma seq_edit_is_str_edit e s : seq_edit e s = lift s (str_edit e (data s)).
 Proof.
-  destruct e as [ix v|t|d| |m| | | |old new cnt|w f|w f|w f|cs|cs|cs]; try reflexivity.
+  destruct e as [ix v|t|d| |m| | | |old new cnt|w f|w f|w f|cs|cs|cs|p|p|x y z]; try reflexivity.
+  2: { cbn [seq_edit str_edit]. destruct (py_maketrans x y z); reflexivity. }
   destruct ix as [i|sl].
   - cbn [seq_edit str_edit]. pose proof (seq_setitem_int s i v) as H.
     destruct (getitem (data s) i) as [x|x] eqn:E; [|exact H].
@@ -67,10 +68,18 @@ Proof.
   intros H. destruct (nth_error_split l k H) as (l1 & l2 & -> & <-). apply set_nth_app.
 Qed.
 
+(* a subscript (gap-aware or not, any step) goes through the constructor: the str subscript, upper-cased, same id *)
+Lemma seq_getitem_is_str_getitem gap s ix :
+  seq_getitem gap s ix = match str_getitem gap (data s) ix with Ok r => Ok (mkseq (py_upper r) (sid s)) | Err e => Err e end.
+Proof.
+  unfold seq_getitem, str_getitem. destruct (adjust_index gap (data s) ix) as [ix'|e]; [|reflexivity].
+  destruct (pyget (data s) ix'); reflexivity.
+Qed.
+
 (* ---- one step ---- *)
 Lemma dstep_data st h : map data (fst (dstep_run st h)) = strs_step (map data st) h.
 Proof.
-  destruct h as [k|k e|k q|k j|e|]; cbn [dstep_run strs_step].
+  destruct h as [k|k e|k q|k j|e| |k gap ix|k gap ix]; cbn [dstep_run strs_step].
   - rewrite nth_error_map. destruct (nth_error st k) as [s|]; cbn [option_map fst]; [|reflexivity].
     rewrite map_app. reflexivity.
   - rewrite nth_error_map. destruct (nth_error st k) as [s|] eqn:Ek; cbn [option_map fst]; [|reflexivity].
@@ -81,10 +90,17 @@ Proof.
   - destruct (nth_error st k); [destruct (nth_error st j)|]; reflexivity.
   - cbn [fst]. apply edit_all_spec.
   - reflexivity.
+  - rewrite nth_error_map. destruct (nth_error st k) as [s|]; cbn [option_map fst]; [|reflexivity].
+    rewrite seq_getitem_is_str_getitem. destruct (str_getitem gap (data s) ix); cbn [fst]; [|reflexivity].
+    rewrite map_app. reflexivity.
+  - rewrite nth_error_map. destruct (nth_error st k) as [s|]; cbn [option_map fst]; [|reflexivity].
+    rewrite seq_getitem_is_str_getitem. destruct (str_getitem gap (data s) ix); cbn [fst]; [|reflexivity].
+    rewrite map_app. cbn [map data]. f_equal. symmetry.
+    exact (set_nth_map data st k (set_data s (py_upper x))).
 Qed.
-Lemma dstep_ids st h : map sid (fst (dstep_run st h)) = ids_step (map sid st) h.
+Lemma dstep_ids st h : map sid (fst (dstep_run st h)) = ids_step_d (map data st) (map sid st) h.
 Proof.
-  destruct h as [k|k e|k q|k j|e|]; cbn [dstep_run ids_step].
+  destruct h as [k|k e|k q|k j|e| |k gap ix|k gap ix]; cbn [dstep_run ids_step ids_step_d].
   - rewrite nth_error_map. destruct (nth_error st k) as [s|]; cbn [option_map fst]; [|reflexivity].
     rewrite map_app. reflexivity.
   - destruct (nth_error st k) as [s|] eqn:Ek; [|reflexivity].
@@ -94,16 +110,26 @@ Proof.
   - destruct (nth_error st k); [destruct (nth_error st j)|]; reflexivity.
   - cbn [fst]. apply edit_all_spec.
   - reflexivity.
+  - rewrite !nth_error_map. destruct (nth_error st k) as [s|]; cbn [option_map fst]; [|reflexivity].
+    rewrite seq_getitem_is_str_getitem. destruct (str_getitem gap (data s) ix); cbn [fst]; [|reflexivity].
+    rewrite map_app. reflexivity.
+  - rewrite !nth_error_map. destruct (nth_error st k) as [s|] eqn:Ek; cbn [option_map fst]; [|reflexivity].
+    rewrite seq_getitem_is_str_getitem. destruct (str_getitem gap (data s) ix); cbn [fst]; [|reflexivity].
+    rewrite map_app. cbn [map sid set_data]. f_equal.
+    rewrite <- set_nth_map. cbn [sid set_data]. apply set_nth_id. rewrite nth_error_map, Ek. reflexivity.
 Qed.
 Lemma dstep_length st h : (length st <= length (fst (dstep_run st h)))%nat.
 Proof.
-  destruct h as [k|k e|k q|k j|e|]; cbn [dstep_run].
+  destruct h as [k|k e|k q|k j|e| |k gap ix|k gap ix]; cbn [dstep_run].
   - destruct (nth_error st k); cbn [fst]; [rewrite app_length; lia|lia].
   - destruct (nth_error st k) as [s|]; [|cbn; lia]. destruct (seq_edit e s); cbn [fst]; [rewrite set_nth_length|]; lia.
   - destruct (nth_error st k); cbn; lia.
   - destruct (nth_error st k); [destruct (nth_error st j)|]; cbn; lia.
   - cbn [fst]. destruct (edit_all_spec e st) as (_ & _ & _ & ->). lia.
   - cbn; lia.
+  - destruct (nth_error st k) as [s|]; [|cbn; lia]. destruct (seq_getitem gap s ix); cbn [fst]; [rewrite app_length|]; lia.
+  - destruct (nth_error st k) as [s|]; [|cbn; lia].
+    destruct (seq_getitem gap s ix); cbn [fst]; [rewrite app_length, set_nth_length|]; lia.
 Qed.
 (* what a query step answers *)
 Lemma dstep_query st k q :
@@ -124,7 +150,7 @@ Proof. reflexivity. Qed.
 Lemma dstep_frame st h j : edits h j = false -> (j < length st)%nat ->
   nth_error (fst (dstep_run st h)) j = nth_error st j.
 Proof.
-  intros He Hj. destruct h as [k|k e|k q|k i|e|]; cbn [dstep_run edits] in *.
+  intros He Hj. destruct h as [k|k e|k q|k i|e| |k gap ix|k gap ix]; cbn [dstep_run edits] in *.
   - destruct (nth_error st k); cbn [fst]; [|reflexivity]. apply nth_error_app1. exact Hj.
   - destruct (nth_error st k) as [s|]; [|reflexivity]. destruct (seq_edit e s); cbn [fst]; [|reflexivity].
     apply set_nth_other. intros ->. rewrite Nat.eqb_refl in He. discriminate.
@@ -132,7 +158,20 @@ Proof.
   - destruct (nth_error st k); [destruct (nth_error st i)|]; reflexivity.
   - discriminate.
   - reflexivity.
+  - destruct (nth_error st k); [|reflexivity]. destruct (seq_getitem gap b ix); cbn [fst]; [|reflexivity].
+    apply nth_error_app1. exact Hj.
+  - destruct (nth_error st k) as [s|]; [|reflexivity]. destruct (seq_getitem gap s ix); cbn [fst]; [|reflexivity].
+    rewrite nth_error_app1 by (rewrite set_nth_length; exact Hj).
+    apply set_nth_other. intros ->. rewrite Nat.eqb_refl in He. discriminate.
 Qed.
+(* what a slicing step answers and appends: the upper-cased str subscript with the id of the source *)
+Lemma dstep_slice st k gap ix s : nth_error st k = Some s ->
+  dstep_run st (DSlice k gap ix) =
+  match str_getitem gap (data s) ix with
+  | Ok r => (st ++ [mkseq (py_upper r) (sid s)], show_seq (mkseq (py_upper r) (sid s)))
+  | Err x => (st, show_exc x)
+  end.
+Proof. intros H. cbn [dstep_run]. rewrite H, seq_getitem_is_str_getitem. destruct (str_getitem gap (data s) ix); reflexivity. Qed.
 Lemma dstep_dup st k s : nth_error st k = Some s ->
   fst (dstep_run st (DDup k)) = st ++ [s] /\
   nth_error (fst (dstep_run st (DDup k))) (length st) = Some s.
@@ -144,13 +183,13 @@ Qed.
 (* ---- whole histories ---- *)
 Lemma store_history : forall hs st,
   map data (store_final st hs) = fold_left strs_step hs (map data st) /\
-  map sid (store_final st hs) = fold_left ids_step hs (map sid st) /\
+  (map data (store_final st hs), map sid (store_final st hs)) = fold_left pair_step hs (map data st, map sid st) /\
   (length st <= length (store_final st hs))%nat.
 Proof.
   unfold store_final. induction hs as [|h hs IH]; intros st; cbn [fold_left].
   - repeat split; lia.
   - destruct (IH (fst (dstep_run st h))) as (H1 & H2 & H3).
-    rewrite H1, H2, dstep_data, dstep_ids. repeat split.
+    rewrite H2, H1. unfold pair_step at 2. cbn [fst snd]. rewrite dstep_data, dstep_ids. repeat split.
     pose proof (dstep_length st h). lia.
 Qed.
 Lemma store_frame : forall hs st j, (forall h, In h hs -> edits h j = false) -> (j < length st)%nat ->
